@@ -30,7 +30,12 @@ C18Cases == {[kind |-> "c16", rule |-> sh, pl |-> "plain", sur |-> "plain"] : sh
             \cup {[kind |-> "twin", rule |-> t, pl |-> "top", sur |-> "plain"] : t \in Twins}
             \cup {[kind |-> "c18", rule |-> sh, pl |-> "doc", sur |-> "plain"] : sh \in C18Shapes}
 
-Cases == CASE Family = "C12" -> C12Cases [] Family = "C13" -> C13Cases [] Family = "C18" -> C18Cases [] Family = "C14" -> C14Cases [] Family = "C15" -> C15Cases [] Family = "C16" -> C16Cases
+C20Cases == {[kind |-> "c20", rule |-> <<k, c, ex>>, pl |-> "flat", sur |-> "plain"] : k \in MockKinds, c \in MockCards, ex \in {"none", "mixed"}}
+            \cup {[kind |-> "c20", rule |-> <<k, "one", ex>>, pl |-> "flat", sur |-> "plain"] : k \in {"string", "int32", "double", "bool", "enum"}, ex \in {"parsable", "unparsable"}}
+            \cup {[kind |-> "c20", rule |-> <<k, c, ex>>, pl |-> "flat", sur |-> "plain"] : k \in {"string", "int32", "uint32", "uint64", "fixed32", "sint32", "float"}, c \in {"one", "opt", "rep"}, ex \in {"awkward", "range"}}
+            \cup {[kind |-> "c20", rule |-> <<k, "one", "parsable">>, pl |-> n, sur |-> "plain"] : k \in {"string", "int64", "int32", "enum", "msg", "ts"}, n \in MockNestings \ {"flat"}}
+
+Cases == CASE Family = "C12" -> C12Cases [] Family = "C13" -> C13Cases [] Family = "C18" -> C18Cases [] Family = "C20" -> C20Cases [] Family = "C14" -> C14Cases [] Family = "C15" -> C15Cases [] Family = "C16" -> C16Cases
 
 Build(c) == CASE c.kind = "msg"    -> C12MessageCase("PFX", c.rule, c.pl, c.sur)
               [] c.kind = "method" -> C12MethodCase("PFX", c.rule, c.sur)
@@ -40,6 +45,7 @@ Build(c) == CASE c.kind = "msg"    -> C12MessageCase("PFX", c.rule, c.pl, c.sur)
               [] c.kind = "c13x"   -> C13ShapeCase("PFX", c.rule)
               [] c.kind = "c13m"   -> C13MethodCase("PFX", c.rule)
               [] c.kind = "c18"    -> C18Case("PFX", c.rule)
+              [] c.kind = "c20"    -> C20Case("PFX", c.rule[1], c.rule[2], c.rule[3], c.pl)
               [] c.kind = "c14"    -> C14Case("PFX", c.rule, c.pl)
               [] c.kind = "c15"    -> C15Case("PFX", c.rule)
               [] c.kind = "c16"    -> C16Case("PFX", c.rule, 4)
@@ -72,7 +78,7 @@ Spec == Init /\ [][Next]_mvars
 \* offender; twins and imported-file placements break no rule in the files to generate
 FamilyIntent ==
   pc = "loaded" =>
-    CASE fv.kind \in {"twin", "c13s", "c13p", "c13x", "c13m", "c14", "c15", "c16", "c18"} -> Violations(schema) = {}
+    CASE fv.kind \in {"twin", "c13s", "c13p", "c13x", "c13m", "c14", "c15", "c16", "c18", "c20"} -> Violations(schema) = {}
       [] fv.pl = "imported" -> Violations(schema) = {}
       [] OTHER -> /\ \E v \in Violations(schema) : v.rule = BaseRule(fv.rule) /\ v.offender = OffenderName(fv.rule)
                   /\ \A v \in Violations(schema) : v.rule = BaseRule(fv.rule)
